@@ -1356,18 +1356,16 @@ class Xsd11Element(XsdElement):
                 elem = Element(elem.tag)
 
         if inherited:
-            dummy = Element('_dummy_element', attrib=inherited)
+            # The tests see the inherited attributes that are not overridden
+            # by the element's own attributes (XSD 1.1 Part 1, 3.12.4).
+            dummy = Element(elem.tag, attrib=inherited)
             dummy.attrib.update(elem.attrib)
+            elem = dummy
 
-            for alt in self.alternatives:
-                if alt.type is not None:
-                    if alt.token is None or alt.test(elem) or alt.test(dummy):
-                        return alt.type
-        else:
-            for alt in self.alternatives:
-                if alt.type is not None:
-                    if alt.token is None or alt.test(elem):
-                        return alt.type
+        for alt in self.alternatives:
+            if alt.type is not None:
+                if alt.token is None or alt.test(elem):
+                    return alt.type
 
         return self.type
 
